@@ -149,8 +149,8 @@ pub open spec fn is_slot_write(info: StoreInfo, slot: int, h: Header, hbit: bool
 pub open spec fn is_truncate(info: StoreInfo, store: Store, at: int) -> bool {
     info.store == store && info.info_type == StoreInfoType::Size && info.miss && info.index == at
 }
-/// the header-size invariant: both slots hold a framed header without overlapping
-pub open spec fn header_fits(h: Header) -> bool { 0 < header_enc(h).len() <= 2044 }
+/// the header invariant: it can be encoded (standard manifest) and both slots hold a framed header without overlapping
+pub open spec fn header_fits(h: Header) -> bool { 0 < header_enc(h).len() <= 2044 && manifest_std(h.manifest) }
 
 impl Oplog {
     /*@ fn src/oplog/mod.rs Oplog::insert_header
@@ -497,7 +497,7 @@ impl Oplog {
         r is Ok ==> r->Ok_0.oplog.header_bits[0] == false && r->Ok_0.oplog.header_bits[1] == false
             && r->Ok_0.oplog.entries_length == 0 && r->Ok_0.oplog.entries_byte_length == 0
             && r->Ok_0.entries is None
-            && r->Ok_0.header.key_pair == key_pair
+            && r->Ok_0.header.key_pair == key_pair && header_fits(r->Ok_0.header)
             && r->Ok_0.infos_to_flush@.len() == 2
             && is_slot_write(r->Ok_0.infos_to_flush@[0], 0, r->Ok_0.header, false, 8 + 2 * header_enc(r->Ok_0.header).len() as int)
             && is_truncate(r->Ok_0.infos_to_flush@[1], Store::Oplog, 8192)
@@ -537,7 +537,7 @@ impl Oplog {
             && (forall|i: int| 0 <= i < r->Ok_0->Right_0.infos_to_flush@.len() ==> flushable(#[trigger] r->Ok_0->Right_0.infos_to_flush@[i])
                     && r->Ok_0->Right_0.infos_to_flush@[i].store == Store::Oplog)
             && r->Ok_0->Right_0.infos_to_flush@.len() <= 2
-            && header_small_spec(r->Ok_0->Right_0.header) == header_small_spec(r->Ok_0->Right_0.header),
+            && manifest_std(r->Ok_0->Right_0.header.manifest),
         info is Some && r is Ok && (slot_leader(info->Some_0.data->Some_0@, 0) is Some || slot_leader(info->Some_0.data->Some_0@, 4096) is Some)
             ==> r->Ok_0->Right_0.oplog.header_bits == open_bits(info->Some_0.data->Some_0@)
                 && r->Ok_0->Right_0.infos_to_flush@.len() == 0,
